@@ -171,8 +171,27 @@ def responder_events(run, sconn=None, cconn=None, client=None):
             args = a[4] if len(a) > 4 else []
             if args:
                 tok2id[args[0]] = nid(a[0])
+    # a cancellation is announced by an observation point *before* the library cancels the contexts (so that a handler
+    # can never be seen cancelled before its cause) and, where there is one, closed by a point after it; a handler whose
+    # context is sampled as live between the two is not evidence of anything: such samples are left out
+    win_all = 0            # open windows that cover every handler (closeInFlight, external shutdown, loop exit)
+    win_id = set()         # ids whose own cancel request is being carried out
     for e in run["events"]:
         p, c, a = e["p"], e["c"], e["a"] or []
+        if c == sconn and p == "cif.cancelling":
+            win_all += 1
+        elif c == sconn and p == "cif.cancelled":
+            win_all = max(0, win_all - 1)
+        elif c == sconn and p == "loop.exit":
+            win_all += 1000          # the connection context is cancelled by a deferred call after this point: never closed
+        elif c == "harness" and p == "srv.cancel":
+            win_all += 1
+        elif c == "harness" and p == "srv.cancelled":
+            win_all = max(0, win_all - 1)
+        elif c == sconn and p == "cancel.recv" and len(a) > 1 and a[1]:
+            win_id.add(nid(a[0]))
+        elif c == sconn and p == "cancel.done":
+            win_id.discard(nid(a[0]))
         if c == "harness" and p == "ctx.cancel":
             # the caller's intent as the harness knows it (not as the library reports it)
             i = tok2id.get(a[0])
@@ -203,7 +222,7 @@ def responder_events(run, sconn=None, cconn=None, client=None):
                     evs.append("HCtxDone %d" % i if i is not None else "HCtxDoneNote")
             elif p == "h.end" and len(a) > 1 and a[1] is False:
                 tok = a[0]
-                if tok2id.get(tok) is not None:
+                if tok2id.get(tok) is not None and win_all == 0 and tok2id[tok] not in win_id:
                     evs.append("HEndLive %d" % tok2id[tok])
     return evs
 
@@ -255,6 +274,8 @@ def stream_events(run, client=None, cconn=None):
             i = nid(e["a"][0])
             if args and i is not None:
                 tok_of_id[i] = args[0]
+    any_req = {nid(e["a"][0]) for e in run["events"] if e["c"] == client and e["p"] == "call.start" and (e["a"][1] or "").endswith("SubAny")}
+    srv_any, cli_any = set(), set()      # channels of interface-typed streams: not modelled (direct oracle only)
     srv_ch = {}      # (server conn, chid) -> token
     cli_ch = {}      # chid -> token (current registration on the client)
     pending = []     # tokens of ch.val callbacks whose sink.val is still to come (the executor is sequential)
@@ -277,10 +298,16 @@ def stream_events(run, client=None, cconn=None):
         elif c.startswith("ws-server#"):
             if p == "och.alloc":
                 t = tok_of_id.get(nid(a[1]))
-                if t is not None:
+                if nid(a[1]) in any_req:
+                    srv_any.add((c, nid(a[0])))
+                    srv_ch.pop((c, nid(a[0])), None)
+                elif t is not None:
+                    srv_any.discard((c, nid(a[0])))
                     srv_ch[(c, nid(a[0]))] = t
                     out.append("(%d, OchAlloc)" % t)
             elif p in ("och.reg", "och.val.v", "och.close"):
+                if (c, nid(a[0])) in srv_any:
+                    continue
                 t = srv_ch.get((c, nid(a[0])))
                 if t is None:
                     out.append("(999999, OchVal 0)")      # a forwarder event for a channel id nobody allocated: not a behaviour
@@ -293,10 +320,18 @@ def stream_events(run, client=None, cconn=None):
         elif c == cconn:
             if p == "resp.chreg":
                 t = tok_of_id.get(nid(a[1]))
-                if t is not None:
+                if nid(a[1]) in any_req:
+                    cli_any.add(nid(a[0]))
+                    cli_ch.pop(nid(a[0]), None)
+                elif t is not None:
+                    cli_any.discard(nid(a[0]))
                     cli_ch[nid(a[0])] = t
                     out.append("(%d, ChReg)" % t)
             elif p in ("ch.val", "ch.close", "cc.close"):
+                if nid(a[0]) in cli_any:
+                    if p == "ch.val":
+                        pending = ["skip"]
+                    continue
                 t = cli_ch.get(nid(a[0]))
                 if t is None:
                     out.append("(999999, ChVal)")
@@ -308,7 +343,9 @@ def stream_events(run, client=None, cconn=None):
                 else:
                     out.append("(%d, CcClose)" % t)
         elif c == client and p == "sink.val":
-            if pending:
+            if pending == ["skip"]:
+                pending = []
+            elif pending:
                 out.append("(%d, SinkVal %d)" % (pending[0], ival(a[0])))
                 pending = []
             else:
@@ -363,12 +400,19 @@ def forwarder_cases(run):
         return {}          # values no longer tell their subscription (i >= 1000)
     toks = {t for t, _ in tok_of_req.values()}
     per = {}
+    untracked = set()      # (conn, chid) of channels that are not Sub / SubS streams (interface-typed ones): left out
     for e in run["events"]:
         c, p, a = e["c"], e["p"], e["a"] or []
         if not c.startswith("ws-server#"):
             continue
+        if p in ("och.val.v", "och.close") and (c, nid(a[0])) in untracked:
+            continue
         if p == "och.reg":
             t = tok_of_req.get(nid(a[1]))
+            if t is None:
+                untracked.add((c, nid(a[0])))
+            else:
+                untracked.discard((c, nid(a[0])))
             if t is not None:
                 per.setdefault(c, []).append("CReg %d %d" % (t[0], nid(a[0])))
         elif p == "och.val.v":
